@@ -180,19 +180,54 @@ static double peRateFD(const Rig& g, const Force& f, const State& s, double h = 
     return (pe[1] - pe[0]) / (2 * h);
 }
 // C12 record:  I c12 <elem-record>  ->  O power dPEdt diss ;   P lines on the implementation
-static void c12Lines(const std::string& key, const Rig& g, const Force& f, const State& s, const Contribution& c,
+static std::string gOrig;   // the original I line in replay mode
+static bool gDissOnly = false;     // replay of a `diss*` record: print only that record
+static double c12Lines(const std::string& key, const Rig& g, const Force& f, const State& s, const Contribution& c,
                      bool reportsPE, bool hasDamping, bool pureDamper, double scale) {
     double P = powerOf(g, s, c);
     double tol = 1e-6 * std::max(1.0, scale);
+    double diss = 0;
     if (reportsPE) {
         double rate = peRateFD(g, f, s);
-        double diss = P + rate;                 // power = -dPE/dt + diss
+        diss = P + rate;                 // power = -dPE/dt + diss
+        if (gDissOnly) return diss;
         vh::P("dissipation_nonpositive", key + ".diss_le_0", diss, tol);
         if (!hasDamping) vh::P("no_damping_conservative", key + ".diss_eq_0", std::abs(diss), tol);
-    } else {
+    } else if (!gDissOnly) {
         vh::P("pe_is_zero", key + ".pe_zero", std::abs(c.pe), 0);
         if (pureDamper) vh::P("damper_power_nonpositive", key + ".power_le_0", P, 1e-12 * std::max(1.0, scale));
     }
+    return diss;
+}
+// value of the dissipation term (power + central difference of PE) as its own record: the model predicts it
+// (jet derivative of the coded PE), tolerance = finite-difference accuracy relative to the power scale
+static void dissRecord(const std::string& fn, const std::string& argTokens, double diss, double scale) {
+    if (gDissOnly) std::puts(gOrig.c_str()); else std::printf("I %s%s\n", fn.c_str(), argTokens.c_str());
+    std::printf("T 1e-5 %.3g\n", 2e-6 * std::max(1.0, scale));
+    vh::O(fn).d(diss).emit();
+}
+
+
+// C12 predicates for a force *subsystem* (CompliantContactSubsystem): power of the system's rigid-body forces against the
+// central difference of MultibodySystem::calcPotentialEnergy along the motion; `reportedLoss` = sum of the documented
+// per-contact power dissipation
+static void c12SystemLines(const std::string& key, const Rig& g, const State& s, bool hasDamping, double reportedLoss, double h = 1e-6) {
+    g.sys.realize(s, Stage::Dynamics);
+    const Vector_<SpatialVec>& F = g.sys.getRigidBodyForces(s, Stage::Dynamics);
+    double P = 0, scale = 0;
+    for (int b = 0; b < (int)F.size(); ++b) {
+        const SpatialVec& V = g.matter.getMobilizedBody(MobilizedBodyIndex(b)).getBodyVelocity(s);
+        P += dot(F[b][0], V[0]) + dot(F[b][1], V[1]);
+        scale += F[b][1].norm() * (V[1].norm() + 1) + F[b][0].norm() * V[0].norm();
+    }
+    const Vector qdot = s.getQDot(); double pe[2];
+    for (int k = 0; k < 2; ++k) { State t = s; t.updQ() = s.getQ() + (k ? h : -h) * qdot; g.sys.realize(t, Stage::Dynamics); pe[k] = g.sys.calcPotentialEnergy(t); }
+    double diss = P + (pe[1] - pe[0]) / (2 * h);
+    scale += std::abs(g.sys.calcPotentialEnergy(s));
+    double tol = 1e-6 * std::max(1.0, scale);
+    vh::P("dissipation_nonpositive", key + ".diss_le_0", diss, tol);
+    if (!hasDamping) vh::P("no_damping_conservative", key + ".diss_eq_0", std::abs(diss), tol);
+    if (reportedLoss >= 0) vh::P("dissipation_rate_documented", key + ".power_dissipation", std::abs(diss + reportedLoss), tol);
 }
 
 typedef std::function<void(Src&)> Elem;
@@ -216,7 +251,6 @@ static void putKin(Src& c, const Rig& g, bool withVel) {
     }
 }
 
-static std::string gOrig;   // the original I line in replay mode
 static int gNB = 0;         // default number of moving bodies in generation mode (0 = random 2..4)
 
 // builds the rig for a record with nb moving bodies; `add` adds the element(s) and returns the Force to evaluate
@@ -385,8 +419,13 @@ static void elemMobility(Src& c, const std::string& which) {
     }
     Contribution kk = contrib(*g, f, g->s);
     const std::string fn = (which == "mobDiscrete") ? "mobConst" : which;
-    if (c.replay) std::puts(gOrig.c_str()); else std::printf("I %s%s\n", fn.c_str(), c.rec.str().c_str());
     double fm = mb.getOneFromUPartition(g->s, MobilizerUIndex(0), kk.mob);
+    if (gDissOnly) {
+        double diss = c12Lines("MobilityLinearStop", *g, f, g->s, kk, true, d != 0, false, 1);
+        dissRecord("dissStop", "", diss, std::abs(fm) * std::abs(u) + std::abs(kk.pe));
+        return;
+    }
+    if (c.replay) std::puts(gOrig.c_str()); else std::printf("I %s%s\n", fn.c_str(), c.rec.str().c_str());
     vh::O(fn).d(fm).d(kk.pe).emit();
     std::string tag = which;
     if (which == "mobStop") tag += (k == 0 ? ".k0" : q > hi ? ".upper" : q < lo ? ".lower" : ".inside") + std::string(d == 0 ? ".d0" : "");
@@ -399,7 +438,8 @@ static void elemMobility(Src& c, const std::string& which) {
         static const char* names[] = {"MobilityLinearSpring", "MobilityLinearDamper", "MobilityConstantForce", "MobilityDiscreteForce", "MobilityLinearStop"};
         int idx = which == "mobSpring" ? 0 : which == "mobDamper" ? 1 : which == "mobConst" ? 2 : which == "mobDiscrete" ? 3 : 4;
         bool reports = (idx == 0 || idx == 4);
-        c12Lines(names[idx], *g, f, g->s, kk, reports, idx == 4 && d != 0, idx == 1, std::abs(fm) * std::abs(u) + std::abs(kk.pe));
+        double diss = c12Lines(names[idx], *g, f, g->s, kk, reports, idx == 4 && d != 0, idx == 1, std::abs(fm) * std::abs(u) + std::abs(kk.pe));
+        if (idx == 4 && !c.replay) dissRecord("dissStop", c.rec.str(), diss, std::abs(fm) * std::abs(u) + std::abs(kk.pe));
     }
 }
 
@@ -502,7 +542,7 @@ static void elemGravity(Src& c, bool uniform) {
 static void elemBushing(Src& c) {
     int nb = c.ival(gNB ? gNB : 2 + c.rng->below(3));
     int b1 = c.integer(0, nb), b2 = c.integer(0, nb);
-    if (!c.replay && b1 == b2) { c.rec.str(""); b2 = (b1 + 1) % (nb + 1); c.rec << ' ' << nb << ' ' << b1 << ' ' << b2; }
+    if (!c.replay && b1 == b2 && c.rng->below(3)) { c.rec.str(""); b2 = (b1 + 1) % (nb + 1); c.rec << ' ' << nb << ' ' << b1 << ' ' << b2; }
     std::unique_ptr<Rig> g(new Rig());
     Transform X1, X2, XF, XM; SpatialVec V1(Vec3(0), Vec3(0)), V2(Vec3(0), Vec3(0)); Vec6 kk, cc;
     if (c.replay) {
@@ -541,7 +581,7 @@ static void elemBushing(Src& c) {
     emitRecord("bushing", c, gOrig);
     vh::Line L = vh::O("bushing"); outSpatial(L, k.F[b1]); outSpatial(L, k.F[b2]); L.d(k.pe).d(bush.getPowerDissipation(g->s));
     L.v(bush.getQ(g->s), 6).v(bush.getQDot(g->s), 6).v(bush.getF(g->s), 6).d(0.0); L.emit();
-    vh::D(std::string("bushing") + ((b1 == 0 || b2 == 0) ? ".ground" : ".two_bodies"));
+    vh::D(std::string("bushing") + (b1 == b2 ? ".same_body" : (b1 == 0 || b2 == 0) ? ".ground" : ".two_bodies"));
     if (wantC13()) thirdLaw("LinearBushing", *g, g->s, k.F);
     if (wantC12()) {
         bool damp = false; for (int i = 0; i < 6; ++i) damp = damp || cc[i] != 0;
@@ -704,23 +744,30 @@ static void elemHC(Src& c, int scenario) {
     hcBuildAndRun(sc, run, none, true);
     Rig& g = *run.g;
     // ---- record
-    if (c.replay) std::puts(gOrig.c_str());
-    else {
+    std::string recArgs;
+    if (!c.replay) {
         std::string sceneStr = c.rec.str();
         int ntok = 0; { std::istringstream is(sceneStr); std::string t; while (is >> t) ++ntok; }
-        std::ostringstream os; os << "I hc " << ntok << sceneStr << ' ' << sc.nb << ' ' << hex(sc.vt);
+        std::ostringstream os; os << ' ' << ntok << sceneStr << ' ' << sc.nb << ' ' << hex(sc.vt);
         for (int b = 0; b <= sc.nb; ++b) { putPose(os, g.body[b].getBodyTransform(g.s)); putVel(os, g.body[b].getBodyVelocity(g.s)); }
         os << ' ' << run.nc; for (auto& t : run.contactTokens) os << t;
-        std::puts(os.str().c_str());
+        recArgs = os.str();
     }
+    auto hcDamped = [&]() { bool damp = false; for (int i = 1; i <= sc.nb; ++i) damp = damp || sc.mat[i].c != 0 || sc.mat[i].ud != 0 || sc.mat[i].us != 0 || sc.mat[i].uv != 0;
+                            if (sc.hasHalf) damp = damp || sc.mHalf.c != 0 || sc.mHalf.us != 0 || sc.mHalf.ud != 0 || sc.mHalf.uv != 0; return damp; };
+    auto hcScale = [&]() { double scl = 0; for (int b = 0; b <= sc.nb; ++b) scl += run.k.F[b][1].norm() * (sc.V[b][1].norm() + sc.V[b][0].norm() + 1); return scl + std::abs(run.k.pe); };
+    if (gDissOnly) {
+        double diss = c12Lines("HuntCrossleyForce", g, *run.hcp, g.s, run.k, true, hcDamped(), false, hcScale());
+        dissRecord("dissHC", "", diss, hcScale());
+        return;
+    }
+    if (c.replay) std::puts(gOrig.c_str()); else std::printf("I hc%s\n", recArgs.c_str());
     vh::Line L = vh::O("hc"); for (int b = 0; b <= sc.nb; ++b) outSpatial(L, run.k.F[b]); L.d(run.k.pe); L.emit();
     vh::D(std::string("hc.contacts") + std::to_string(std::min(run.nc, 4)) + (scenario == 1 ? ".fast_separating" : scenario == 2 ? ".no_penetration" : ""));
     if (wantC13()) thirdLaw("HuntCrossleyForce", g, g.s, run.k.F);
     if (wantC12()) {
-        bool damp = false; for (int i = 1; i <= sc.nb; ++i) damp = damp || sc.mat[i].c != 0 || sc.mat[i].ud != 0 || sc.mat[i].us != 0 || sc.mat[i].uv != 0;
-        if (sc.hasHalf) damp = damp || sc.mHalf.c != 0;
-        double scl = 0; for (int b = 0; b <= sc.nb; ++b) scl += run.k.F[b][1].norm() * (sc.V[b][1].norm() + 1);
-        c12Lines("HuntCrossleyForce", g, *run.hcp, g.s, run.k, true, damp, false, scl);
+        double diss = c12Lines("HuntCrossleyForce", g, *run.hcp, g.s, run.k, true, hcDamped(), false, hcScale());
+        if (!c.replay) dissRecord("dissHC", recArgs, diss, hcScale());
     }
     if (!wantC37()) return;
     // ---- C37 predicates on the implementation
@@ -840,11 +887,12 @@ static void elemSmooth(Src& c, int scenario) {
 }
 
 // ---------------------------------------------------------------- ExponentialSpringForce (normal force)
-static void elemExp(Src& c) {
+static void elemExp(Src& c, bool frictionless = false) {
     double d0 = c.val(c.replay ? 0 : c.rng->range(-0.01, 0.02)), d1 = c.val(c.replay ? 0 : c.rng->range(0.1, 2)), d2 = c.val(c.replay ? 0 : c.rng->range(200, 1500));
     double cz = c.val(c.replay ? 0 : (c.rng->below(4) == 0 ? 0.0 : c.rng->range(0.1, 2)));
     double maxF = c.val(c.replay ? 0 : (c.rng->below(4) == 0 ? c.rng->range(1, 50) : 1e5));
     double muk = c.replay ? 0 : c.rng->range(0, 0.6), mus = c.replay ? 0 : muk + c.rng->range(0, 0.4);
+    if (frictionless && !c.replay) { mus = 0; muk = 0; }
     mus = c.val(mus); muk = c.val(muk);
     Vec3 station = c.vec(-0.3, 0.3);
     Transform XP, X; SpatialVec V(Vec3(0), Vec3(0));
@@ -867,11 +915,25 @@ static void elemExp(Src& c) {
     f.resetAnchorPoint(g->s);
     g->sys.realize(g->s, Stage::Dynamics);
     if (!c.replay) { putPose(c.rec, g->body[1].getBodyTransform(g->s)); putVel(c.rec, g->body[1].getBodyVelocity(g->s)); }
-    emitRecord("expn", c, gOrig);
     double fzE = f.getNormalForceElasticPart(g->s, false)[2], fzD = f.getNormalForceDampingPart(g->s, false)[2], fz = f.getNormalForce(g->s, false)[2];
-    vh::O("expn").d(fzE).d(fzD).d(fz).emit();
-    vh::D(std::string("expn") + (fz == 0 ? ".clamped0" : fz == maxF ? ".clampedMax" : ""));
     Contribution k = contrib(*g, f, g->s);
+    if (frictionless) {
+        // without friction the element is its normal part: the reported PE is fzElas/d2 (model: expPE)
+        emitRecord("expnPE", c, gOrig);
+        vh::O("expnPE").d(fzE).d(fzD).d(fz).d(k.pe).emit();
+    } else {
+        emitRecord("expn", c, gOrig);
+        vh::O("expn").d(fzE).d(fzD).d(fz).emit();
+    }
+    vh::D(std::string(frictionless ? "expnPE" : "expn") + (fz == 0 ? ".clamped0" : fz == maxF ? ".clampedMax" : ""));
+    if (wantC12() && frictionless) {
+        // the cap `maxNormalForce` changes the reported energy to (max - fzDamp)/d2 (source: "TODO Correct potential energy
+        // calculation when the normal force is capped"): separate key for that input class
+        Vec3 vB0 = g->body[1].findStationVelocityInGround(g->s, station);
+        double sc = (std::abs(fz) + std::abs(fzE)) * (vB0.norm() + 1) + std::abs(k.pe);
+        c12Lines(fz == maxF ? "ExponentialSpringForce.capped" : "ExponentialSpringForce", *g, f, g->s, k, true, cz != 0, false, sc);
+        vh::P("frictionless_no_tangential_force", "ExponentialSpringForce.frictionless.tangential", f.getFrictionForce(g->s).norm(), 0);
+    }
     if (wantC13()) thirdLaw("ExponentialSpringForce", *g, g->s, k.F);
     if (!wantC37()) return;
     Vec3 nz = XP.R() * Vec3(0, 0, 1);
@@ -978,6 +1040,12 @@ static void elemHertz(Src& c, int scenario) {
     L.emit();
     vh::D(std::string("hertz.contacts") + std::to_string(std::min(nc, 4)) + (scenario == 2 ? ".no_penetration" : ""));
     if (wantC13()) thirdLaw("CompliantContactSubsystem.Hertz", *g, g->s, F);
+    if (wantC12()) {
+        bool damp = hasHalf && (mHalf.c != 0 || mHalf.us != 0 || mHalf.ud != 0 || mHalf.uv != 0);
+        for (int i = 1; i <= nb; ++i) damp = damp || mat[i].c != 0 || mat[i].us != 0 || mat[i].ud != 0 || mat[i].uv != 0;
+        double loss = 0; for (int i = 0; i < nf; ++i) loss += compliant.getContactForce(g->s, i).getPowerDissipation();
+        c12SystemLines("CompliantContactSubsystem.Hertz", *g, g->s, damp, loss);
+    }
     if (!wantC37()) return;
     if (scenario == 2) vh::P("vanishes_without_penetration", "CompliantContactSubsystem.Hertz.no_penetration", (double)nf, 0);
     // each reported contact force: pure force (no moment), sign / friction predicates with the documented Stribeck-like
@@ -1066,29 +1134,132 @@ static void elemEF(Src& c) {
             sp << ' ' << hex(mesh.getFaceArea(face)); putVec(sp, t2g * np); putVec(sp, t1g * pos); ++ns;
         }
     }
-    if (c.replay) std::puts(gOrig.c_str());
-    else {
+    std::string recArgs;
+    if (!c.replay) {
         std::string sceneStr = c.rec.str();
         int ntok = 0; { std::istringstream is(sceneStr); std::string t; while (is >> t) ++ntok; }
-        std::ostringstream os; os << "I ef " << ntok << sceneStr << ' ' << hex(vt); putMat(os, m);
+        std::ostringstream os; os << ' ' << ntok << sceneStr << ' ' << hex(vt); putMat(os, m);
         os << ' ' << bOther;
         putPose(os, g->body[1].getBodyTransform(g->s)); putVel(os, g->body[1].getBodyVelocity(g->s));
         putPose(os, g->body[bOther].getBodyTransform(g->s)); putVel(os, g->body[bOther].getBodyVelocity(g->s));
         os << ' ' << ns << sp.str();
-        std::puts(os.str().c_str());
+        recArgs = os.str();
     }
+    const bool efDamped = m.c != 0 || m.us != 0 || m.ud != 0 || m.uv != 0;
+    const double efScale = k.F[1][1].norm() * (V[1][1].norm() + V[2][1].norm() + V[1][0].norm() + V[2][0].norm() + 1) + std::abs(k.pe);
+    if (gDissOnly) {
+        double diss = c12Lines("ElasticFoundationForce", *g, ef, g->s, k, true, efDamped, false, efScale);
+        dissRecord("dissEF", "", diss, efScale);
+        return;
+    }
+    if (c.replay) std::puts(gOrig.c_str()); else std::printf("I ef%s\n", recArgs.c_str());
     vh::Line L = vh::O("ef"); outSpatial(L, k.F[1]); outSpatial(L, k.F[bOther]); L.d(k.pe); L.emit();
     vh::D(std::string("ef.") + (otherKind == 0 ? "halfspace" : "sphere") + (ns == 0 ? ".nosprings" : ns < 5 ? ".few" : ".many"));
     if (wantC13()) thirdLaw("ElasticFoundationForce", *g, g->s, k.F);
-    if (wantC12()) c12Lines("ElasticFoundationForce", *g, ef, g->s, k, true, m.c != 0 || m.us != 0 || m.ud != 0 || m.uv != 0, false, k.F[1][1].norm() * 3 + std::abs(k.pe));
+    if (wantC12()) {
+        double diss = c12Lines("ElasticFoundationForce", *g, ef, g->s, k, true, efDamped, false, efScale);
+        if (!c.replay) dissRecord("dissEF", recArgs, diss, efScale);
+    }
+}
+
+// ---------------------------------------------------------------- CableSpring on a straight CablePath
+// The tension law (model: cableSpring) reads the path's length L and rate Ldot; how the path turns a tension into body
+// forces is CablePath's business (C45): here only predicates (third law, power = -tension*Ldot, power vs. dPE/dt).
+static void elemCable(Src& c) {
+    double k = c.real(0.5, 20), cc = c.val(c.replay ? 0 : (c.rng->below(4) == 0 ? 0.0 : c.rng->range(0.05, 2))), L0 = c.real(0.2, 3);
+    std::unique_ptr<Rig> g(new Rig());
+    CableTrackerSubsystem cables(g->sys);
+    int b1 = 0, b2 = 1; Vec3 s1(0), s2(0); double L = 0, Ld = 0;
+    if (c.replay) {
+        L = vh::unhex(c.next()); Ld = vh::unhex(c.next());
+        vh::Rng local(11);
+        g->body.push_back(MobilizedBody::Slider(g->matter.Ground(), Transform(), Rig::randBody(local), Transform())); g->kind.push_back(3);
+    } else {
+        int nb = 2 + c.rng->below(3);
+        g->randomTree(*c.rng, nb);
+        b1 = c.rng->below(nb + 1); b2 = (b1 + 1 + c.rng->below(nb)) % (nb + 1);
+        s1 = randVec(*c.rng, 0.8); s2 = randVec(*c.rng, 0.8);
+    }
+    CablePath path(cables, g->body[b1], s1, g->body[b2], s2);
+    CableSpring spring(g->forces, path, k, L0, cc);
+    g->topo();
+    if (c.replay) { g->body[1].setOneQ(g->s, 0, L); g->body[1].setOneU(g->s, 0, Ld); }
+    else g->randomState(*c.rng);
+    g->sys.realize(g->s, Stage::Position);
+    path.solveForInitialCablePath(g->s);
+    g->sys.realize(g->s, Stage::Velocity);
+    L = path.getCableLength(g->s); Ld = path.getCableLengthDot(g->s);
+    if (!c.replay) c.rec << ' ' << hex(L) << ' ' << hex(Ld);
+    Contribution kk = contrib(*g, spring, g->s);
+    emitRecord("cable", c, gOrig);
+    vh::O("cable").d(spring.getTension(g->s)).d(spring.getPowerDissipation(g->s)).d(kk.pe).emit();
+    vh::D(std::string("cable") + (L <= L0 ? ".slack" : (spring.getTension(g->s) == 0 ? ".yanked" : ".taut")) + (cc == 0 ? ".c0" : ""));
+    double P = powerOf(*g, g->s, kk), f = spring.getTension(g->s);
+    double scale = std::abs(f) * (std::abs(Ld) + 1) + std::abs(kk.pe);
+    if (wantC13()) thirdLaw("CableSpring", *g, g->s, kk.F);
+    if (wantC12()) {
+        c12Lines("CableSpring", *g, spring, g->s, kk, true, cc != 0, false, scale);
+        vh::P("power_is_minus_tension_times_rate", "CableSpring.power_tension_rate", std::abs(P + f * Ld), 1e-10 * std::max(1.0, scale));
+    }
+}
+
+// ---------------------------------------------------------------- CompliantContactSubsystem, elastic-foundation and brick
+// generators: predicates only (third law over all bodies incl. Ground; power vs. dPE/dt).  These generators return a
+// contact force WITH a moment about the contact point, the part of realizeSubsystemDynamicsImpl that Hertz never exercises.
+static void elemCompliantOther(Src& c, long i) {
+    vh::Rng& r = *c.rng;
+    int kindS = (int)(i % 2);                     // 0 mesh sphere on a half space, 1 brick on a half space
+    std::unique_ptr<Rig> g(new Rig());
+    ContactTrackerSubsystem tracker(g->sys);
+    CompliantContactSubsystem compliant(g->sys, tracker);
+    Transform Xhalf(randRot(r), randVec(r, 1));
+    Mat5 mh = drawMat(c), mb = drawMat(c);
+    g->matter.Ground().updBody().addContactSurface(Xhalf, ContactSurface(ContactGeometry::HalfSpace(), ContactMaterial(mh.k, mh.c, mh.us, mh.ud, mh.uv)));
+    Body::Rigid b = Rig::randBody(r);
+    double radius = r.range(0.3, 1.0); Vec3 hdim(r.range(0.2, 0.8), r.range(0.2, 0.8), r.range(0.2, 0.8));
+    Transform XBS(randRot(r), randVec(r, 0.3));
+    if (kindS == 0) b.addContactSurface(XBS, ContactSurface(ContactGeometry::TriangleMesh(PolygonalMesh::createSphereMesh(radius, 1 + r.below(2))),
+                                                            ContactMaterial(mb.k, mb.c, mb.us, mb.ud, mb.uv), r.range(0.05, 0.3)));
+    else b.addContactSurface(XBS, ContactSurface(ContactGeometry::Brick(hdim), ContactMaterial(mb.k, mb.c, mb.us, mb.ud, mb.uv)));
+    g->body.push_back(MobilizedBody::Free(g->matter.Ground(), Transform(), b, Transform())); g->kind.push_back(1);
+    g->topo();
+    Vec3 nOut = -(Xhalf.R() * Vec3(1, 0, 0));
+    Rotation Rb = randRot(r);
+    double reach = kindS == 0 ? radius : std::min(hdim[0], std::min(hdim[1], hdim[2]));
+    double depth = r.range(0.05, 0.3) * reach;
+    double ext = kindS == 0 ? radius : 0;
+    if (kindS == 1) {   // support distance of the brick along -nOut
+        Vec3 nB = ~(Rb * XBS.R()) * (-nOut);
+        ext = std::abs(nB[0]) * hdim[0] + std::abs(nB[1]) * hdim[1] + std::abs(nB[2]) * hdim[2];
+    }
+    Vec3 centre = Xhalf.p() + (ext - depth) * nOut + r.range(-1, 1) * (Xhalf.R() * Vec3(0, 1, 0));
+    std::vector<Transform> X = {Transform(), Transform(Rb, centre - Rb * XBS.p())};
+    std::vector<SpatialVec> V = {SpatialVec(Vec3(0), Vec3(0)), SpatialVec(randVec(r, 1.5), randVec(r, 0.6))};
+    g->fit(X, V);
+    g->sys.realize(g->s, Stage::Dynamics);
+    std::printf("I pc %d\n", 200 + kindS); vh::O("pc").d(0.0).emit();
+    int nf = compliant.getNumContactForces(g->s);
+    double mom = 0, loss = 0; for (int k = 0; k < nf; ++k) { mom = std::max(mom, compliant.getContactForce(g->s, k).getForceOnSurface2()[0].norm()); loss += compliant.getContactForce(g->s, k).getPowerDissipation(); }
+    const std::string key = kindS == 0 ? "CompliantContactSubsystem.ElasticFoundation" : "CompliantContactSubsystem.BrickHalfSpace";
+    vh::D(std::string("compliant.") + (kindS == 0 ? "mesh" : "brick") + (nf == 0 ? ".nocontact" : mom > 0 ? ".with_moment" : ".pure_force"));
+    const Vector_<SpatialVec>& F = g->sys.getRigidBodyForces(g->s, Stage::Dynamics);
+    if (wantC13()) thirdLaw(key, *g, g->s, F);
+    if (wantC12()) c12SystemLines(key, *g, g->s, mb.c != 0 || mh.c != 0 || mb.us != 0 || mh.us != 0 || mb.ud != 0 || mb.uv != 0 || mh.ud != 0 || mh.uv != 0, loss);
 }
 
 static bool runContact(const std::string& fn, Src& c, bool degenerate) {
     if (fn == "hc") { elemHC(c, 0); return true; }
     if (fn == "smooth") { elemSmooth(c, 0); return true; }
     if (fn == "expn") { elemExp(c); return true; }
+    if (fn == "expnPE") { elemExp(c, true); return true; }
     if (fn == "hertz") { elemHertz(c, 0); return true; }
     if (fn == "ef") { elemEF(c); return true; }
+    if (fn == "cable") { elemCable(c); return true; }
+    if (fn == "dissHC" || fn == "dissEF" || fn == "dissStop") {
+        std::string keep = MODE; MODE = "c12"; gDissOnly = true;
+        if (fn == "dissHC") elemHC(c, 0); else if (fn == "dissEF") elemEF(c); else elemMobility(c, "mobStop");
+        gDissOnly = false; MODE = keep; return true;
+    }
     (void)degenerate;
     return false;
 }
@@ -1107,10 +1278,16 @@ static bool runContactMode(const std::string& mode, long i, Src& c) {
     }
     if (mode == "c37multi") { elemHC(c, 1); return true; }
     if (mode == "c37deg") { elemSmooth(c, 1 + (int)(i % 2)); return true; }
-    if (mode == "c13contact" || mode == "c12contact") {
-        std::string keep = MODE; MODE = (mode == "c13contact") ? "c13" : "c12";
-        switch (i % 4) { case 0: elemHC(c, 3); break; case 1: if (MODE == "c13") elemSmooth(c, 0); else elemEF(c); break;
-                         case 2: if (MODE == "c13") elemExp(c); else elemHC(c, 3); break; default: if (MODE == "c13") elemHertz(c, 0); else elemEF(c); break; }
+    if (mode == "c13contact") {
+        std::string keep = MODE; MODE = "c13";
+        switch (i % 8) { case 0: elemHC(c, 0); break; case 1: elemSmooth(c, 0); break; case 2: elemExp(c); break; case 3: elemHertz(c, 0); break;
+                         case 4: elemEF(c); break; case 5: elemCable(c); break; case 6: elemCompliantOther(c, i / 8); break; default: elemHertz(c, 0); break; }
+        MODE = keep; return true;
+    }
+    if (mode == "c12contact") {
+        std::string keep = MODE; MODE = "c12";
+        switch (i % 8) { case 0: elemHC(c, 0); break; case 1: elemEF(c); break; case 2: elemExp(c, true); break; case 3: elemHertz(c, 0); break;
+                         case 4: elemCable(c); break; case 5: elemHC(c, 3); break; case 6: elemCompliantOther(c, i / 8); break; default: elemExp(c, true); break; }
         MODE = keep; return true;
     }
     return false;
@@ -1280,13 +1457,13 @@ int main(int argc, char** argv) {
             return 0;
         }
         static const char* c38elems[] = {"tpSpring", "tpDamper", "tpConst", "constForce", "constTorque", "mobSpring", "mobDamper",
-                                         "mobConst", "mobDiscrete", "mobStop", "globalDamper", "uniformGravity", "gravity", "bushing"};
+                                         "mobConst", "mobDiscrete", "mobStop", "globalDamper", "uniformGravity", "gravity", "bushing", "cable"};
         static const char* c13elems[] = {"tpSpring", "tpDamper", "tpConst", "bushing"};
         long N = a.n;
         if (MODE == "c38deg" || MODE == "c37deg") N = std::max(30L, a.n / 6);
         for (long i = 0; i < N; ++i) {
             Src c; c.rng = &rng;
-            if (MODE == "" || MODE == "c38" || MODE == "c12") runOne(c38elems[i % 14], c);
+            if (MODE == "" || MODE == "c38" || MODE == "c12") runOne(c38elems[i % 15], c);
             else if (MODE == "c38deg") runOne(c13elems[i % 3], c, true);
             else if (MODE == "c13") runOne(c13elems[i % 4], c);
             else if (MODE == "c38param") runParam(i, c);
